@@ -111,7 +111,8 @@ def admStep (s : AdmState) (toks : List String) : AdmState × String :=
   | ["kill", k] =>
     ({ s with sess := s.sess.modify k.toNat! fun x => { x with open_ := false } }, "ok")
   | ["req", kind, method, tv, sid, ev, org] => admReq s kind method tv sid ev org
-  | ["route", hex] =>
+  | "route" :: hex :: _ =>
+    -- (the method, when given, plays no part: `ServeMux.Handler` cleans the path of every request)
     match s.mux with
     | none => (s, "panic")
     | some m =>
